@@ -16,7 +16,8 @@ pub fn is_parent<T: EbmlSpecification<T> + EbmlTag<T> + Clone>(current_id: u64, 
 /// A sibling tag is one which shares the same direct parent.  A separate instance of the current tag counts as a sibling.
 /// 
 pub fn is_sibling<T: EbmlSpecification<T> + EbmlTag<T> + Clone>(current_id: u64, test_id: u64) -> bool {
-    <T>::get_path_by_id(current_id) == <T>::get_path_by_id(test_id)
+    // An id that is not in the specification has no path at all (it is not a root level tag)
+    <T>::get_tag_data_type(test_id).is_some() && <T>::get_path_by_id(current_id) == <T>::get_path_by_id(test_id)
 }
 
 ///
